@@ -96,6 +96,18 @@ func Resume(
 				// file most-likely contains the index and we cannot know where it starts, therefore
 				// can't resume.
 				return errors.New("corrupt CARv2 header; cannot resume from file")
+			} else if payloadEnd := headerInFile.DataOffset + headerInFile.DataSize; headerInFile.IndexOffset != 0 && headerInFile.IndexOffset < payloadEnd {
+				// Finalize writes the header last and in one piece; an index offset inside the
+				// payload means the header was only partially written. Truncating at the data
+				// size it claims could destroy blocks, so refuse.
+				return errors.New("corrupt CARv2 header; index offset overlaps data payload; cannot resume from file")
+			} else if headerInFile.IndexOffset == 0 {
+				// Without an index nothing may follow the payload. If something does, the
+				// header (most likely its data size) was only partially written.
+				var probe [1]byte
+				if read, _ := rw.ReadAt(probe[:], int64(payloadEnd)); read == 1 {
+					return errors.New("corrupt CARv2 header; data beyond the claimed payload but no index offset; cannot resume from file")
+				}
 			}
 		}
 
